@@ -58,11 +58,12 @@ impl Prop for C19 {
     fn run_case(&mut self, _idx: u64, rng: &mut Rng, ctx: &mut Ctx) {
         let o = Opts { data: rng.coin(), func: rng.chance(1, 4), tron: false, stop: true, max_lines: 24, input: false, frac: rng.coin() };
         let mut p = gen::generate(rng, o);
-        p.number(rng.range(2, 60) as u16, *rng.pick(&[2u16, 5, 10]));
+        p.number(if rng.chance(1, 6) { 0 } else { rng.range(1, 60) as u16 }, *rng.pick(&[2u16, 5, 10]));
         let used: Vec<u16> = p.nums.values().copied().collect();
         // a number that is not a line
         let missing: u16 = loop {
-            let c = match rng.usize(3) {
+            let c = match rng.usize(4) {
+                3 => 0,
                 0 => *rng.pick(&used) + 1,
                 1 => rng.range(0, 65_529) as u16,
                 _ => *used.iter().max().unwrap_or(&0) + rng.range(1, 999) as u16,
@@ -300,10 +301,26 @@ impl Prop for C19 {
             return;
         }
         // direct statements that do not enter the program still work
-        let (_, ev2) = run(&mut s, "PRINT 7*6");
-        let ok = ev2.iter().any(|e| matches!(e, Ev::Print(p) if p.contains("42")));
+        let directs = [
+            "PRINT 7*6",
+            "WHILE K9<3:K9=K9+1:WEND:PRINT K9*14",
+            "FOR I9=1 TO 3:NEXT:PRINT (I9-1)*14",
+            "IF 1 THEN PRINT 42 ELSE PRINT 0",
+            "K9=5:WHILE K9:K9=K9-1:WEND:PRINT 42+K9",
+            "A9$=\"4\"+\"2\":PRINT VAL(A9$)",
+            "DIM Q9(3):Q9(2)=42:PRINT Q9(2):ERASE Q9",
+        ];
+        let dl = *rng.pick(&directs[..]);
+        let (_, ev2) = run(&mut s, dl);
+        ctx.count("direct_statements_with_a_faulty_program");
+        let ok = ev2.iter().any(|e| matches!(e, Ev::Print(p) if p.contains("42"))) && !ev2.iter().any(|e| matches!(e, Ev::Error(..)));
         if !ok {
-            ctx.violation("direct-blocked", "diag:direct", &format!("PRINT 7*6 with the faulty program in memory gave {:?}", ev2), &text);
+            ctx.violation(
+                "direct-blocked",
+                &format!("diag:direct:{}", dl.split(|c: char| !c.is_ascii_alphabetic()).next().unwrap_or("")),
+                &format!("{:?} with the faulty program in memory gave {:?} (expected 42 and no error)", dl, ev2),
+                &format!("{}\n{}", text, dl),
+            );
             return;
         }
         if ctx.want_sample() {
